@@ -97,7 +97,7 @@ def real_solver_search(rep, rng, n):
     methods = ["auto", "SLSQP", "trust-constr", "L-BFGS-B", "BFGS", "Nelder-Mead", "COBYLA", "TNC", "Powell", "CG", "linprog", "highs", "highs-ds"]
     for i in range(n):
         kinds = ["feasible", "infeasible", "bounds", "lp_infeasible", "bound_only", "lp_zero_row", "nlp_zero_row", "lp_eq_infeasible",
-                 "bound_and_looser_row", "objective_swap", "lp_strided_views", "upper_bound_zero"]
+                 "bound_and_looser_row", "objective_swap", "lp_strided_views", "upper_bound_zero", "diverging"]
         kind = kinds[i % len(kinds)]
         x = VectorVariable(f"s{i}", rng.randint(1, 3), lb=rng.choice([None, 0, -1]), ub=rng.choice([None, 2, 5]))
         P = Problem()
@@ -146,6 +146,13 @@ def real_solver_search(rep, rng, n):
             yv = _VVv(f"e{i}", 6, lb=0.0, ub=10.0)
             P.subject_to(yv[::2].sum() >= 6).subject_to(yv[1::2].sum() >= 6).subject_to(np.array([1.0, 2.0, 3.0]) @ yv[::2] <= 40)
             P.subject_to(A_[0, 0] + yv.sum() <= 60)
+        elif kind == "diverging":
+            # a free variable, an objective unbounded along it, constraints the constraint-blind methods never see: wherever such a
+            # method stops (or diverges to inf), OPTIMAL requires the constraints to hold there
+            for v in x:
+                v.lb, v.ub = None, None
+            sgn = -1 if (i // len(kinds)) % 2 == 0 else 1
+            P.minimize(x.sum() * sgn).subject_to(x.sum() >= 3).subject_to(x.sum() <= 1)
         elif kind == "upper_bound_zero":
             # a bound that is exactly 0 is a bound
             x[0].lb, x[0].ub = None, 0
@@ -252,7 +259,7 @@ def run(rep: vk.Report):
         rep.violation({"kind": "correspondence", "obligation": "wrapper outcome = model post_minimize (SolveWrap.v)",
                        "case": cases.terms[i][:4000], "meta": meta, "model": model,
                        "witness": meta if concrete else None}, concrete=concrete)
-    tried, found = real_solver_search(rep, rng, 36 if rep.tier == "quick" else 400)
+    tried, found = real_solver_search(rep, rng, 39 if rep.tier == "quick" else 400)
     cov = rep.coverage
     cov["evaluations"] = len(cases.terms) + tried
     cov["distinct_nontrivial"] = cases.nontrivial
